@@ -328,6 +328,7 @@ def main():
     kf = known_findings()
     new_violations = []
     known_hit = collections.Counter()
+    known_cls = collections.Counter()   # (finding id, violation class) -> runs
     unexamined = collections.Counter()
     harness_problem = None
     cf_exes = {}
@@ -345,13 +346,15 @@ def main():
 
     def attribute(v, path):
         """Known finding?  The violation must disappear when exactly that call site is neutralised."""
+        # exact-precondition classes first: the oracle itself established the finding
+        for f in kf.get("findings", []):
+            if prop in f.get("properties", []) and v["cls"] in f.get("match_classes", []):
+                return f
         for f in kf.get("findings", []):
             if prop not in f.get("properties", []):
                 continue
             if f.get("classes") and v["cls"] not in f["classes"]:
                 continue
-            if v["cls"] in f.get("match_classes", []):
-                return f   # the oracle itself established the finding's exact precondition
             if f.get("counterfactual"):
                 cexe = cf_exe(f)
                 if not cexe:
@@ -422,6 +425,7 @@ def main():
         for v, attributed in out:
             if attributed:
                 known_hit[(attributed["id"], attributed["what"])] += 1
+                known_cls["%s/%s" % (attributed["id"], v["cls"])] += 1
             else:
                 new_violations.append((d, v, path))
     # crashes of workers: confirm by running that seed alone
@@ -506,6 +510,7 @@ def main():
             "probes": dict(agg_n),
             "binaries": {"plain_runs": n_plain, "san_runs": n_san},
             "known_findings_hit": {k[0]: n for k, n in known_hit.items()},
+            "known_findings_hit_by_class": dict(known_cls),
             "unreset_globals": unreset,
             "worker_crashes": len(crashes),
             **({"small_graph_order_coverage": small_cov} if small_cov is not None else {}),
